@@ -178,6 +178,16 @@ func (g *argGen) signature() stack.Signature {
 		}
 	}
 	s.Stack.Elided = r.Intn(10) == 0
+	if r.Intn(25) == 0 {
+		s.Stack.Calls = nil // a goroutine whose header was the last line of a truncated dump
+	}
+	if len(s.CreatedBy.Calls) == 1 && r.Intn(5) == 0 {
+		// race reports have creation stacks of several frames
+		for k := 0; k < 1+r.Intn(2); k++ {
+			fc := fileUniverse[r.Intn(len(fileUniverse))]
+			s.CreatedBy.Calls = append(s.CreatedBy.Calls, mkCall(symbolUniverse[r.Intn(len(symbolUniverse))], fc, 20+r.Intn(3), stack.Args{}))
+		}
+	}
 	return s
 }
 
@@ -194,7 +204,27 @@ func (g *argGen) variant(s stack.Signature) stack.Signature {
 	for i := range out.Stack.Calls {
 		out.Stack.Calls[i].Args = g.perturbArgs(out.Stack.Calls[i].Args)
 	}
-	switch r.Intn(10) {
+	pick := r.Intn(13)
+	if len(out.Stack.Calls) == 0 && (pick == 3 || pick == 5) {
+		pick = 1
+	}
+	switch pick {
+	case 10: // both elided, this one shows fewer frames
+		if len(out.Stack.Calls) > 1 {
+			out.Stack.Calls = out.Stack.Calls[:len(out.Stack.Calls)-1]
+		}
+		out.Stack.Elided = true
+	case 11: // same creator go statement, different caller below it
+		if n := len(out.CreatedBy.Calls); n > 1 {
+			c := out.CreatedBy.Calls[n-1]
+			out.CreatedBy.Calls[n-1] = mkCall(symbolUniverse[r.Intn(len(symbolUniverse))], fileChoice{c.RemoteSrcPath, c.Location}, c.Line, c.Args)
+		}
+	case 12: // same frames and arguments, only the lock bit differs
+		out.Locked = !out.Locked
+		for i := range out.Stack.Calls {
+			out.Stack.Calls[i].Args = deepCopyArgs(s.Stack.Calls[i].Args)
+		}
+		return out
 	case 0:
 		out.Locked = !out.Locked
 	case 1:
